@@ -426,24 +426,34 @@ fn run(ctx: &mut Ctx) {
         }
     }
     // ---------------- (c) EFI withholding rule
-    ctx.bound("efi_rule", "all sequences of length <= 4 over {EfiMmap, EfiBs, other}: the EFI memory map is withheld while a boot-services-not-exited tag is present anywhere");
+    ctx.bound("efi_rule", "all sequences of length <= 4 over {EfiMmap, EfiBs, other, EfiMmap with an unsupported descriptor version (only together with EfiBs)}: the EFI memory map is withheld - and not looked into - while a boot-services-not-exited tag is present anywhere");
     for len in 0..=4 {
-        for code in 0..3usize.pow(len as u32) {
+        for code in 0..4usize.pow(len as u32) {
             let mut tags = vec![];
             let mut c = code;
             let mut seq = vec![];
             for i in 0..len {
-                tags.push(match c % 3 {
+                tags.push(match c % 4 {
                     0 => bi::sample(bi::EFI_MMAP, i, 1 + i % 2),
                     1 => bi::sample(bi::EFI_BS, 0, 0),
-                    _ => bi::sample(bi::LOAD_BASE, i, 0),
+                    2 => bi::sample(bi::LOAD_BASE, i, 0),
+                    _ => {
+                        // a map the iterator must refuse (descriptor version 2): withheld like any other while
+                        // boot services are running - nobody may look inside it
+                        let mut t = bi::sample(bi::EFI_MMAP, i, 1);
+                        wr32(&mut t, 12, 2);
+                        t
+                    }
                 });
-                seq.push(c % 3);
-                c /= 3;
+                seq.push(c % 4);
+                c /= 4;
+            }
+            if seq.contains(&3) && !seq.contains(&1) {
+                continue; // without a boot-services tag the refused map would be decoded: C18's subject, not this part's
             }
             tags.push(bi::end_tag());
             let region = bi::region(&tags, &bi::zero_pad);
-            let describe = || J::obj().set("part", "efi_rule").set("sequence", format!("{:?} (0 = EfiMmap, 1 = EfiBs, 2 = other)", seq)).set("region", J::hex(&region));
+            let describe = || J::obj().set("part", "efi_rule").set("sequence", format!("{:?} (0 = EfiMmap, 1 = EfiBs, 2 = other, 3 = EfiMmap with descriptor version 2)", seq)).set("region", J::hex(&region));
             ctx.leaf(describe, |ctx| {
                 ctx.state(hash::hash_bytes(&region));
                 ctx.nontrivial();
